@@ -168,6 +168,13 @@ def handle (mode : String) (line : String) : String :=
       | _ => "violates unparsable-observation"
     | "tablerace" :: _ =>
       if obs.startsWith "race ok" then "ok" else s!"violates one logical connection per peer: {obs}"
+    | "serve" :: "tcpmonitor" :: _ =>
+      match words obs with
+      | ["monitor", "answered", g, order] =>
+        if g == "3/3" && order == "c1-1,c1-2,c1-3" then "ok"
+        else s!"violates requests pipelined with messages the application's request monitor drops were not all answered in order: {g} ({order})"
+      | ["monitor", "answered", g] => s!"violates requests pipelined with messages the application's request monitor drops were not answered: {g}"
+      | _ => "violates unparsable-observation"
     | "serve" :: "udpgiveup" :: _ =>
       match words obs with
       | ["giveup", "b", "got", g, "stopped", st] =>
